@@ -185,13 +185,13 @@ Proof.
   destruct (mk_open s1 d name) as [c|e'].
   - eapply shrinks_trans; [exact Hi|]. eapply rm_rounds_shrinks; [| |exact H].
     + intros s2 s3 r3 Hs. eapply rm_entries_shrinks; [|exact Hs]. intros s4 n s5 r5 Hr. eapply IH. exact Hr.
-    + intro s2. pose proof (rm_inode_shrinks s2 d name) as Hi2. destruct (rm_inode s2 d name) as [s3 r3]. exact Hi2.
+    + intro s2. cbv beta. pose proof (rm_inode_shrinks s2 d name) as Hi2. destruct (rm_inode s2 d name) as [s3 r3]. cbn [fst] in *. exact Hi2.
   - destruct (N.eqb e' ENOENT); inversion H; subst; exact Hi.
 Qed.
 
 (* the tree invariant of the refinement: entries point at objects, names are NUL-free *)
 Definition ents_ok (s : fs) : Prop :=
-  forall e, In e (ents s) -> (ent_obj e < NPB s)%nat /\ has_nul (ent_name e) = false.
+  forall e, In e (ents s) -> (ent_obj e < NPB s)%nat /\ Dyn.plain (ent_name e) = true.
 
 Lemma ents_ok_shrinks s s' : shrinks s s' -> ents_ok s -> ents_ok s'.
 Proof. intros (Hk & _ & Hi) H e He. unfold NPB. rewrite Hk. apply H, Hi, He. Qed.
@@ -209,10 +209,10 @@ Qed.
 Lemma lookup_lt s d n c : ents_ok s -> lookup s d n = Some c -> (c < NPB s)%nat.
 Proof. intros Hok H. destruct (find_ent_in _ _ _ _ H) as (n' & Hin & _). exact (proj1 (Hok _ Hin)). Qed.
 
-Lemma dir_names_nonul s c : ents_ok s -> Forall (fun n => has_nul n = false) (dir_names s c).
+Lemma dir_names_nonul s c : ents_ok s -> Forall (fun n => dot_or_dotdot n = true \/ Dyn.plain n = true) (dir_names s c).
 Proof.
   intro Hok. unfold dir_names. apply Forall_forall. intros n Hn. apply in_map_iff in Hn. destruct Hn as (e & <- & He).
-  apply filter_In in He. exact (proj2 (Hok _ (proj1 He))).
+  apply filter_In in He. right. exact (proj2 (Hok _ (proj1 He))).
 Qed.
 
 Definition seen_ok (t : fdt) (seen : list Z) : Prop := forall x, zmem x seen = true -> indom t x.
@@ -225,9 +225,8 @@ Proof. intros H x Hx. specialize (H x Hx). unfold indom in *. cbn [tfind]. destr
 
 Lemma seen_ok_add t seen n o : seen_ok t seen -> seen_ok ((n, o) :: t) (n :: seen).
 Proof.
-  intros H x Hx. cbn [zmem] in Hx. unfold indom. cbn [tfind]. destruct (Z.eqb_spec x n) as [->|Hne].
-  - rewrite Z.eqb_refl. discriminate.
-  - cbn [orb] in Hx. specialize (H x Hx). destruct (Z.eqb n x); [discriminate|exact H].
+  intros H x Hx. cbn [zmem] in Hx. unfold indom. cbn [tfind]. destruct (Z.eqb_spec n x) as [E|Hne]; [discriminate|].
+  destruct (Z.eqb_spec x n) as [E|_]; [congruence|]. cbn [orb] in Hx. exact (H x Hx).
 Qed.
 
 Lemma tdel_fresh_cons t o : tdel ((fresh t, o) :: t) (fresh t) = t.
@@ -290,6 +289,219 @@ Proof.
   - rewrite drun_bind, (drun_w_unlinkat s t seen dirfd d name AT_REMOVEDIR Hd Hlt Hn).
     destruct (unlink_sem s d name AT_REMOVEDIR) as [|re|s'|s' o] eqn:E2; reflexivity.
   - exfalso. exact (unlink_sem_not_open _ _ _ _ _ _ E1).
+Qed.
+
+(* ---- one pass over a directory stream ------------------------------------------------- *)
+
+Section ENT.
+Variable K : list FSModel.kind.            (* the objects: removal never changes them *)
+Variable t : fdt.
+Variable dfd : Z.
+Variable c : nat.
+Hypothesis Hdfd : tget t dfd = Some c.
+Hypothesis Hc : (c < length K)%nat.
+Hypothesis Hcd : nth c K FSModel.KReg = FSModel.KDir.
+Variable rec : bytes -> prog (result unit ekind).
+Variable recs : fs -> bytes -> option (fs * result unit ekind).
+Hypothesis Hrec : forall s seen n, kinds s = K -> ents_ok s -> seen_ok t seen -> Dyn.plain n = true ->
+  drun {| ds := s; dt := t; dseen := seen |} (rec n) =
+  match recs s n with None => DNoFuel | Some (s', r) => DDone {| ds := s'; dt := t; dseen := seen |} r end.
+Hypothesis Hshr : forall s n s' r, recs s n = Some (s', r) -> shrinks s s'.
+
+Lemma ra_entries_dyn : forall g s seen buf sf,
+  kinds s = K -> ents_ok s -> seen_ok t seen -> Forall (fun n => dot_or_dotdot n = true \/ Dyn.plain n = true) buf ->
+  drun {| ds := s; dt := t; dseen := seen |} (ra_entries rec g dfd buf sf) =
+  match rm_entries recs g s c buf (zmem dfd seen) sf with
+  | None => DNoFuel
+  | Some (s', r) => DDone {| ds := s'; dt := tdel t dfd; dseen := zrem dfd seen |} r
+  end.
+Proof.
+  induction g as [|g IH]; intros s seen buf sf Hk Hok Hso Hbuf; [reflexivity|].
+  cbn [ra_entries rm_entries]. destruct buf as [|n rest].
+  - (* read the next batch *)
+    cbn [Dyn.drun]. unfold Dyn.danswer. cbn [Dyn.dsem ds dt dseen].
+    assert (Hlt : (c < NPB s)%nat) by (unfold NPB; rewrite Hk; exact Hc).
+    rewrite (tree_obj_get s t dfd c Hdfd Hlt).
+    assert (Hd : is_dir s c = true) by (unfold FSModel.is_dir, FSModel.kind_of; rewrite Hk, Hcd; reflexivity).
+    rewrite Hd. cbn [negb]. destruct (zmem dfd seen) eqn:Ez.
+    + rewrite reloc_same. cbn [as_dents]. rewrite drun_bind, drun_close_any. reflexivity.
+    + rewrite reloc_same. cbn [as_dents].
+      rewrite (IH s (dfd :: seen) ([DOT] :: [DOT; DOT] :: dir_names s c) sf Hk Hok).
+      * cbn [zmem zrem]. rewrite Z.eqb_refl. cbn [orb]. reflexivity.
+      * intros x Hx. cbn [zmem] in Hx. destruct (Z.eqb_spec x dfd) as [E|_]; [rewrite E; exact (tget_indom' _ _ _ Hdfd)|exact (Hso x Hx)].
+      * constructor; [left; reflexivity|]. constructor; [left; reflexivity|]. apply dir_names_nonul. exact Hok.
+  - pose proof (Forall_inv Hbuf) as Hn. pose proof (Forall_inv_tail Hbuf) as Hrest. cbv beta in Hn.
+    destruct (dot_or_dotdot n) eqn:Edd; [apply IH; assumption|].
+    destruct Hn as [Hn|Hn]; [discriminate|].
+    rewrite drun_bind, (Hrec s seen n Hk Hok Hso Hn).
+    destruct (recs s n) as [[s1 r1]|] eqn:Er; [|reflexivity].
+    pose proof (Hshr _ _ _ _ Er) as Hs1.
+    destruct (ignore_enoent r1) as [u|e].
+    + apply IH; [destruct Hs1 as (A & _); congruence|exact (ents_ok_shrinks _ _ Hs1 Hok)|exact Hso|exact Hrest].
+    + rewrite drun_bind, drun_close_any. reflexivity.
+Qed.
+
+End ENT.
+
+(* ---- the rounds of remove_all over one sub-directory ------------------------------------ *)
+
+Section RND.
+Variable K : list FSModel.kind.
+Variable t : fdt.
+Variable subdir : Z.
+Variable c : nat.
+Hypothesis Hsub : tget t subdir = Some c.
+Hypothesis Hc : (c < length K)%nat.
+Hypothesis Hcd : nth c K FSModel.KReg = FSModel.KDir.
+Variable scan : Z -> prog (result bool ekind).
+Variable scans : fs -> option (fs * result bool ekind).
+Variable fin : prog (result unit ekind).
+Variable fins : fs -> fs * result unit ekind.
+Hypothesis Hscan : forall s seen, kinds s = K -> ents_ok s -> seen_ok t seen ->
+  drun {| ds := s; dt := (fresh t, c) :: t; dseen := seen |} (scan (fresh t)) =
+  match scans s with None => DNoFuel | Some (s', r) => DDone {| ds := s'; dt := t; dseen := seen |} r end.
+Hypothesis Hscan_shr : forall s s' r, scans s = Some (s', r) -> shrinks s s'.
+Hypothesis Hfin : forall s seen, kinds s = K -> ents_ok s -> seen_ok t seen ->
+  drun {| ds := s; dt := t; dseen := seen |} fin =
+  DDone {| ds := fst (fins s); dt := tdel t subdir; dseen := zrem subdir seen |} (snd (fins s)).
+
+Lemma getfl_dir_flags : z2n (Z.of_N GETFL_DIR) = GETFL_DIR.
+Proof. reflexivity. Qed.
+
+Lemma sem_open_dot s (tt : fdt) fd mode0 : kinds s = K -> tget tt fd = Some c ->
+  sem s rp tt (Openat fd [DOT] (N.lor (N.lor GETFL_DIR O_CLOEXEC) O_LARGEFILE) mode0) = SNew c.
+Proof.
+  intros Hk Hfd. cbn [sem]. rewrite Hfd.
+  set (F := N.lor (N.lor GETFL_DIR O_CLOEXEC) O_LARGEFILE).
+  replace (has F O_NOFOLLOW) with true by (vm_compute; reflexivity). cbn [negb]. rewrite andb_false_r.
+  replace (opath_nofollow F) with false by (vm_compute; reflexivity). cbn [negb orb].
+  unfold ord_open.
+  replace (has F O_PATH) with false by (vm_compute; reflexivity).
+  replace (has F O_CREAT) with false by (vm_compute; reflexivity).
+  replace (intersects F O_ACCMODE) with false by (vm_compute; reflexivity).
+  replace (has F O_TRUNC) with false by (vm_compute; reflexivity).
+  replace (has F O_NOFOLLOW) with true by (vm_compute; reflexivity).
+  cbn [orb negb has_slash has_nul has_byte existsb is_nil].
+  change (N.eqb SLASH DOT) with false. change (N.eqb 0 DOT) with false. cbn [orb].
+  assert (Hlt : (c < PB s)%nat) by (unfold PB; rewrite Hk; exact Hc).
+  destruct (Nat.leb_spec (PB s) c); [lia|].
+  unfold sem_open, open1.
+  assert (Hd : is_dir s c = true) by (unfold FSModel.is_dir, FSModel.kind_of; rewrite Hk, Hcd; reflexivity).
+  rewrite Hd. cbn [negb]. change (is_dot [DOT]) with true. cbv iota.
+  unfold FSModel.kind_of. rewrite Hk, Hcd. reflexivity.
+Qed.
+
+Lemma ra_rounds_dyn : forall g s seen, kinds s = K -> ents_ok s -> seen_ok t seen ->
+  drun {| ds := s; dt := t; dseen := seen |} (ra_rounds scan fin subdir g) =
+  match rm_rounds scans fins g s with
+  | None => DNoFuel
+  | Some (s', r) => DDone {| ds := s'; dt := tdel t subdir; dseen := zrem subdir seen |} r
+  end.
+Proof.
+  induction g as [|g IH]; intros s seen Hk Hok Hso; [reflexivity|].
+  cbn [ra_rounds rm_rounds Dyn.drun]. unfold Dyn.danswer at 1. cbn [Dyn.dsem ds dt dseen].
+  assert (Hlt : (c < NPB s)%nat) by (unfold NPB; rewrite Hk; exact Hc).
+  rewrite (tree_obj_get s t subdir c Hsub Hlt).
+  assert (Hd : is_dir s c = true) by (unfold FSModel.is_dir, FSModel.kind_of; rewrite Hk, Hcd; reflexivity).
+  rewrite Hd. rewrite reloc_same. cbn [as_num]. rewrite getfl_dir_flags. cbn [Dyn.drun].
+  rewrite (danswer_static rp) by (cbn [eff]; vm_compute; reflexivity). cbn [ds dt dseen seen_after].
+  unfold answer. rewrite (sem_open_dot s t subdir 0 Hk Hsub). cbn [fst snd].
+  pose proof (fresh_ge3 t) as H3. cbn [as_fd]. destruct (Z.leb_spec 0 (fresh t)); [|lia].
+  rewrite drun_bind, (Hscan s seen Hk Hok Hso).
+  destruct (scans s) as [[s1 [[|]|e]]|] eqn:Es; try reflexivity.
+  - pose proof (Hscan_shr _ _ _ Es) as Hs1.
+    apply IH; [destruct Hs1 as (A & _); congruence|exact (ents_ok_shrinks _ _ Hs1 Hok)|exact Hso].
+  - pose proof (Hscan_shr _ _ _ Es) as Hs1.
+    rewrite (Hfin s1 seen); [destruct (fins s1); reflexivity|destruct Hs1 as (A & _); congruence|exact (ents_ok_shrinks _ _ Hs1 Hok)|exact Hso].
+Qed.
+
+End RND.
+
+(* ---- dir.rs remove_all(dirfd, name) computes rm_all ----------------------------------------- *)
+
+Lemma remove_open_flags : N.lor (N.lor (N.lor REMOVE_ALL_OPEN_FLAGS OPENAT_NOFOLLOW_FORCED) OPENAT_FORCED) O_LARGEFILE = MKF.
+Proof. vm_compute. reflexivity. Qed.
+
+Lemma mk_open_dir s d name c : mk_open s d name = inl c -> is_dir s c = true.
+Proof.
+  unfold mk_open. destruct (open1 s d name) as [c'|e]; [|discriminate]. destruct (is_dir s c') eqn:E; intro H; inversion H; subst. exact E.
+Qed.
+
+Lemma mk_open_lt s d name c : ents_ok s -> (d < NPB s)%nat -> Dyn.plain name = true -> mk_open s d name = inl c -> (c < NPB s)%nat.
+Proof.
+  intros Hok Hd Hp. destruct (plain_facts _ Hp) as (_ & Hdot & Hdd & _ & _).
+  unfold mk_open, open1. destruct (negb (is_dir s d)); [discriminate|]. rewrite Hdot, Hdd.
+  destruct (lookup s d name) as [c'|] eqn:El; [|discriminate]. destruct (is_dir s c'); intro H; inversion H; subst.
+  exact (lookup_lt _ _ _ _ Hok El).
+Qed.
+
+Theorem remove_all_dyn : forall fuel s t seen dirfd d name,
+  ents_ok s -> seen_ok t seen -> tget t dirfd = Some d -> (d < NPB s)%nat ->
+  has_nul name = false -> is_nil name = false ->
+  drun {| ds := s; dt := t; dseen := seen |} (remove_all fz fuel dirfd name) =
+  match rm_all fuel s d name with
+  | None => DNoFuel
+  | Some (s', r) => DDone {| ds := s'; dt := t; dseen := seen |} r
+  end.
+Proof.
+  induction fuel as [|f IH]; intros s t seen dirfd d name Hok Hso Hd Hlt Hnul Hnil; [reflexivity|].
+  cbn [remove_all rm_all]. destruct (has_slash name) eqn:Hsl; [reflexivity|].
+  destruct (REMOVE_ALL_REFUSES_DOTS && dot_or_dotdot name) eqn:Hdots; [reflexivity|].
+  assert (Hplain : Dyn.plain name = true).
+  { unfold Dyn.plain. rewrite Hnil, Hsl, Hnul. change REMOVE_ALL_REFUSES_DOTS with true in Hdots. cbn [andb] in Hdots.
+    unfold dot_or_dotdot in Hdots. apply orb_false_iff in Hdots. destruct Hdots as [-> ->]. reflexivity. }
+  rewrite drun_bind, (drun_remove_inode s t seen dirfd d name Hd Hlt Hnul).
+  pose proof (rm_inode_shrinks s d name) as Hs1. destruct (rm_inode s d name) as [s1 r1]. cbn [fst snd] in *.
+  destruct (ignore_enoent r1) as [u|e0]; [reflexivity|].
+  pose proof (ents_ok_shrinks _ _ Hs1 Hok) as Hok1.
+  assert (Hk1 : kinds s1 = kinds s) by (destruct Hs1 as (A & _); exact A).
+  assert (Hlt1 : (d < NPB s1)%nat) by (unfold NPB in *; rewrite Hk1; exact Hlt).
+  rewrite drun_bind. unfold os, map_err. rewrite drun_bind.
+  unfold w_openat, w_openat_follow, rustix_path. rewrite (tget_valid _ _ _ Hd), Hnul. cbn [negb Dyn.drun].
+  rewrite remove_open_flags.
+  rewrite (danswer_static rp) by (cbn [eff]; vm_compute; reflexivity). cbn [ds dt dseen seen_after].
+  unfold answer. rewrite (sem_mk_open rp fz Hfz s1 t dirfd d name _ Hd Hlt1 Hplain).
+  destruct (mk_open s1 d name) as [c|e'] eqn:Eo; cbn [fst snd].
+  2:{ cbn [as_fd]. rewrite drun_fail1_any. cbn [Dyn.drun]. cbv beta iota.
+      unfold errno_is. cbn [kind_errno opt_n_eqb]. destruct (N.eqb e' ENOENT); reflexivity. }
+  pose proof (fresh_ge3 t) as H3. cbn [as_fd]. destruct (Z.leb_spec 0 (fresh t)); [|lia]. cbn [Dyn.drun]. cbv beta iota.
+  set (sub := fresh t). set (t1 := (sub, c) :: t).
+  assert (Hclt : (c < NPB s1)%nat) by exact (mk_open_lt _ _ _ _ Hok1 Hlt1 Hplain Eo).
+  assert (Hcdir : nth c (kinds s1) FSModel.KReg = FSModel.KDir).
+  { pose proof (mk_open_dir _ _ _ _ Eo) as Hdir. unfold FSModel.is_dir, FSModel.kind_of in Hdir.
+    destruct (nth c (kinds s1) FSModel.KReg); try discriminate; reflexivity. }
+  assert (Hsub : tget t1 sub = Some c) by apply tget_new.
+  assert (Hd1 : tget t1 dirfd = Some d) by (apply tget_new_old; exact Hd).
+  assert (Hso1 : seen_ok t1 seen) by (apply seen_ok_cons; exact Hso).
+  rewrite (ra_rounds_dyn (kinds s1) t1 sub c Hsub Hclt Hcdir
+             (fun dfd => ra_entries (remove_all fz f sub) f dfd [] false)
+             (fun s2 => rm_entries (fun s3 n => rm_all f s3 c n) f s2 c [] false false)
+             (r <- remove_inode fz dirfd name ;; close sub ;;; Ret (ignore_enoent r))
+             (fun s2 => let '(s3, r) := rm_inode s2 d name in (s3, ignore_enoent r))).
+  - (* the table and the set of read streams are what they were *)
+    unfold t1, sub. rewrite tdel_fresh_cons, (zrem_notin _ _ (seen_ok_fresh _ _ Hso)). reflexivity.
+  - (* one scan pass *)
+    intros s2 seen2 Hk2 Hok2 Hso2.
+    set (dfd := fresh t1). set (t2 := (dfd, c) :: t1).
+    assert (Hdfd : tget t2 dfd = Some c) by apply tget_new.
+    rewrite (ra_entries_dyn (kinds s1) t2 dfd c Hdfd Hclt Hcdir (remove_all fz f sub) (fun s3 n => rm_all f s3 c n)).
+    + unfold t2, dfd. rewrite (seen_ok_fresh _ _ Hso2). rewrite tdel_fresh_cons, (zrem_notin _ _ (seen_ok_fresh _ _ Hso2)). reflexivity.
+    + intros s3 seen3 n Hk3 Hok3 Hso3 Hpn. destruct (plain_facts _ Hpn) as (Hnn & _ & _ & _ & Hnu).
+      apply IH; [exact Hok3|exact Hso3|unfold t2; apply tget_new_old; exact Hsub|unfold NPB; rewrite Hk3; exact Hclt|exact Hnu|exact Hnn].
+    + intros s3 n s4 r4 H4. eapply rm_all_shrinks. exact H4.
+    + exact Hk2.
+    + exact Hok2.
+    + unfold t2. apply seen_ok_cons. exact Hso2.
+    + constructor.
+  - intros s2 s3 r3 Hs. eapply rm_entries_shrinks; [|exact Hs]. intros s4 n s5 r5 Hr. eapply rm_all_shrinks. exact Hr.
+  - (* the final removal of the directory itself *)
+    intros s2 seen2 Hk2 Hok2 Hso2.
+    assert (Hlt2 : (d < NPB s2)%nat) by (unfold NPB in *; rewrite Hk2, Hk1; exact Hlt).
+    rewrite drun_bind, (drun_remove_inode s2 t1 seen2 dirfd d name Hd1 Hlt2 Hnul).
+    destruct (rm_inode s2 d name) as [s3 r3]. cbn [fst snd]. rewrite drun_bind, drun_close_any. reflexivity.
+  - reflexivity.
+  - exact Hok1.
+  - exact Hso1.
 Qed.
 
 End RM.
